@@ -136,7 +136,7 @@ func init() {
 		},
 		Floors: func(string) map[string]int64 {
 			return map[string]int64{"hash_checks": 50000, "pops": 1000, "pop_castle": 5, "pop_ep": 1, "pop_promotion": 5, "sens_piece": 1000, "sens_castle": 100, "sens_ep": 20, "sens_side": 100,
-				"mv_castle": 20, "mv_ep": 5, "mv_promo": 20, "mv_cappromo": 5, "mv_rights_lost_by_capture": 5}
+				"mv_castle": 20, "mv_ep": 5, "mv_promo": 20, "mv_cappromo": 5, "mv_rights_lost_by_capture": 5, "starts_with_unbacked_right": 20}
 		},
 		Run: func(c *fw.Ctx, cs fw.Case) {
 			r := cs.Rand()
@@ -154,6 +154,15 @@ func init() {
 						}
 					}
 					start.Half, start.Full = r.Intn(90), 1+r.Intn(90) // clocks must not matter
+					if i%8 == 5 {
+						// set-ups (as a FEN may give them) that claim a castling right whose rook is not on its home
+						// square: the right can never be used, but it is part of the position, and position and hash
+						// must drop it together when something moves onto or off that corner
+						if q, ok := unbackedRight(r, start); ok {
+							start = q
+							c.Count("starts_with_unbacked_right", 1)
+						}
+					}
 					o := gameOpts{plies: plies, bias: bias, popProb: 0.15, forkProb: 0.02, maxTracks: 3}
 					gm.runGame(r, zt, start, o)
 					for _, t := range gm.tracks {
@@ -300,6 +309,34 @@ func init() {
 			}
 		},
 	})
+}
+
+// unbackedRight replaces the rook behind one of the castling rights by nothing or by another own piece, keeping the right.
+func unbackedRight(r *rand.Rand, p ref.Pos) (ref.Pos, bool) {
+	type fl struct {
+		flag uint8
+		rsq  int
+		sign int8
+	}
+	var have []fl
+	for _, f := range []fl{{ref.CastleWK, 7, 1}, {ref.CastleWQ, 0, 1}, {ref.CastleBK, 63, -1}, {ref.CastleBQ, 56, -1}} {
+		if p.Cast&f.flag != 0 && p.B[f.rsq] == f.sign*ref.Rook {
+			have = append(have, f)
+		}
+	}
+	if len(have) == 0 {
+		return p, false
+	}
+	f := have[r.Intn(len(have))]
+	q := p
+	q.B[f.rsq] = f.sign * []int8{0, 0, ref.Bishop, ref.Knight, ref.Queen}[r.Intn(5)]
+	if q.InCheck(!q.White) {
+		return p, false
+	}
+	if _, err := adapt.Position(q); err != nil {
+		return p, false
+	}
+	return q, true
 }
 
 type forkOp struct {
